@@ -237,8 +237,29 @@ class PyRaise(Exception):
 INTERNED_STRINGS = set()  # string literals encoded as constants of the opaque sort; distinct literals denote distinct values
 
 
-def interned_distinct():
-    cs = [z3.Const('str_' + v, U) for v in sorted(INTERNED_STRINGS)] + [z3.Const('const_None', U)]
+def interned_distinct(formulas=None):
+    """distinct string literals (and None) denote distinct values.  With `formulas`, only the constants that occur in them are
+    listed: the hypothesis is as strong for that obligation and does not change with what other contracts of the same run interned
+    (an obligation must not become harder because an unrelated engine ran before it)"""
+    names = ['str_' + v for v in sorted(INTERNED_STRINGS)] + ['const_None']
+    if formulas is not None:
+        want = set(names)
+        seen, found, stack = set(), set(), [f for f in formulas if isinstance(f, z3.ExprRef)]
+        while stack:
+            x = stack.pop()
+            i = x.get_id()
+            if i in seen:
+                continue
+            seen.add(i)
+            if z3.is_quantifier(x):
+                stack.append(x.body())
+                continue
+            if z3.is_app(x):
+                if x.num_args() == 0 and x.sort() == U and x.decl().name() in want:
+                    found.add(x.decl().name())
+                stack.extend(x.children())
+        names = [n for n in names if n in found]
+    cs = [z3.Const(n, U) for n in names]
     return [z3.Distinct(*cs)] if len(cs) > 1 else []
 
 
@@ -711,7 +732,7 @@ class Engine:
         self.obl_count += 1
         info = dict(info)
         info['trace'] = ' > '.join(st.trace[-12:])
-        o = valid('%s/%s' % (self.label, name), list(st.pc) + interned_distinct(), goal, kind=kind, **info)
+        o = valid('%s/%s' % (self.label, name), list(st.pc) + interned_distinct(list(st.pc) + [goal]), goal, kind=kind, **info)
         self.ctx.add(o, replay=getattr(self, 'replayer', None))
         return o
 
